@@ -46,6 +46,25 @@ func litSamples(rng *rand.Rand, kind string) string {
 		return pick("1s", "1.5h", "10ms", "1h30m", "5µs", "5μs", "5us", "3ns", "-2m", "+2m3", "1.s", "1m5", "9999999h", "100000000000h", "1.5", "h", "1ss", "0s", "1ms2",
 			digits(1+rng.Intn(4))+pick("ns", "us", "µs", "μs", "ms", "s", "m", "h")+digits(rng.Intn(3))+pick("", "s", "m", "x"))
 	case "string":
+		if rng.Intn(3) == 0 {
+			// a generated literal: plain segments of several lengths around escapes and non-ASCII characters (the decoder's
+			// slow path starts after a plain prefix of any length)
+			plain := func(n int) string {
+				b := make([]byte, n)
+				for k := range b {
+					b[k] = "abcxyz 0189_-+.,;:!?()[]{}"[rng.Intn(26)]
+				}
+				return string(b)
+			}
+			esc := func() string {
+				return pick(`\t`, `\n`, `\\`, `\"`, `\u00e9`, `\x41`, `\101`, "é", "€", "😀", `\U0001F600`, `\a`, `\v`)
+			}
+			lit := `"` + plain(rng.Intn(14))
+			for k := rng.Intn(4); k >= 0; k-- {
+				lit += esc() + plain(rng.Intn(6))
+			}
+			return lit + `"`
+		}
 		return pick(`"abc"`, `""`, `"a\tb"`, `"\u00e9"`, `"é"`, `"\x41\x80"`, `"\101"`, `"\400"`, `"\q"`, `"\/"`, "\"a\xffb\"", `"unterminated`, "\"a\nb\"", "\"\n\"", `"\"`, `"a\"b"`, "`raw\n`", "``", "`unterminated",
 			`"\ud800"`, `"\U0001F600"`, `"\U00110000"`, "\"é\nx\"", "\"\\t\nx\"", `"\'"`, `"'"`, "\"\r\"", `"a\`, "\"\xe2\x82\"", `"😀"`)
 	case "char":
